@@ -199,6 +199,7 @@ def _inline_into(prog, raw, block_ids, stack, depth):
                     nb["term"] = {"t": "goto", "target": target, "line": tt.get("line"), "exp": True, "file": tt.get("file", raw.get("file"))}
             if "file" not in nb["term"]:
                 nb["term"]["file"] = src.file
+            nb["inl"] = ck
             blocks.append(nb)
             new_ids.append(boff + j)
         # bind arguments
